@@ -42,7 +42,36 @@ def run_case(job):
             h = zlib.crc32(("tsv" + str(cid)).encode()) % 4
             f.write(("\r\n".join(rows) + "\r\n") if h == 1 and rows else ("\n".join(rows) if h == 0 else "".join(r + "\n" for r in rows)))
         out = os.path.join(d, "out.gaf")
-        r = run_cli(["phase", gaf, tp, "-o", out])
+        feeder = None
+        if zlib.crc32(("fifo" + str(cid)).encode()) % 6 == 2 and filler == 0:
+            # the haplotag table arrives through a pipe (`whatshap haplotag ... | gaftools phase x.gaf /dev/stdin`): it can be read
+            # once, front to back, and that is all the command needs
+            import threading
+
+            fifo = os.path.join(d, "h.pipe")
+            os.mkfifo(fifo)
+            data = open(tp, "rb").read()
+
+            def _feed():
+                try:
+                    with open(fifo, "wb") as w:
+                        w.write(data)
+                except OSError:
+                    pass
+
+            feeder = threading.Thread(target=_feed, daemon=True)
+            feeder.start()
+            tp = fifo
+        r = run_cli(["phase", gaf, tp, "-o", out], cwd_rel=False)
+        if feeder is not None:
+            # a command that never opened the pipe would leave the writer blocked: open it once for reading to let it go
+            if feeder.is_alive():
+                try:
+                    fd = os.open(tp, os.O_RDONLY | os.O_NONBLOCK)
+                    os.close(fd)
+                except OSError:
+                    pass
+            feeder.join(5)
         txt = read_out(out) if os.path.exists(out) else ""
         olines = txt.split("\n")
         if olines and olines[-1] == "":
